@@ -29,7 +29,7 @@ Section OSem.
   Variable otype : obj -> ustring.
   Variable H : ustring -> list step -> cop -> bool -> dconst -> obj -> bool.
   Hypothesis Hden : respects_denotation obj H.
-  Hypothesis Hcidr : respects_cidr obj H.
+  Hypothesis Hcidr : respects_cidr6 obj H.
   Variable O : list (observation obj).
 
   Notation csem := (csem obj otype H).
@@ -103,7 +103,7 @@ Section OSem.
     intros e n b. simpl. split; intros [bs [H1 [H2 H3]]]; exists bs; (split; [exact H1 | split; [apply all_Forall; exact H2 | exact H3]]).
   Qed.
 
-  Lemma B_within : forall e d b, B (OQual e (QWithin d)) b <-> B e b /\ qual_ok (QWithin d) b.
+  Lemma B_within : forall e m x b, B (OQual e (QWithin m x)) b <-> B e b /\ qual_ok (QWithin m x) b.
   Proof. intros; reflexivity. Qed.
 
   Lemma B_startstop : forall e s t b, B (OQual e (QStartStop s t)) b <-> B e b /\ qual_ok (QStartStop s t) b.
@@ -111,7 +111,7 @@ Section OSem.
 
   Lemma qual_ok_incl : forall q b b', incl b' b -> qual_ok q b -> qual_ok q b'.
   Proof.
-    intros [n|d|s t] b b' Hi Hq; simpl in *; auto.
+    intros [n|m x|s t] b b' Hi Hq; simpl in *; auto.
   Qed.
 
   (* ---------------------------------------------------------------- *)
@@ -124,7 +124,7 @@ Section OSem.
     - apply B_and in Hb. destruct Hb as [bs [_ [Hn ->]]]. exact Hn.
     - apply B_or in Hb. destruct Hb as [e [He Hb]]. rewrite Forall_forall in H0. apply (H0 e He b Hb).
     - apply B_fby in Hb. destruct Hb as [bs [_ [Hn [_ ->]]]]. exact Hn.
-    - destruct q as [n|d|s t].
+    - destruct q as [n|m x|s t].
       + apply B_repeat in Hb. destruct Hb as [bs [_ [_ [Hn ->]]]]. exact Hn.
       + apply B_within in Hb. destruct Hb as [Hb _]. apply IHe; exact Hb.
       + apply B_startstop in Hb. destruct Hb as [Hb _]. apply IHe; exact Hb.
@@ -214,7 +214,7 @@ Section OSem.
 
   Lemma refines_qual : forall e e' q, refines e e' -> refines (OQual e q) (OQual e' q).
   Proof.
-    intros e e' [n|d|s t] Hr b Hb.
+    intros e e' [n|m x|s t] Hr b Hb.
     - apply B_repeat in Hb. destruct Hb as [bs [Hl [HB [Hn ->]]]].
       assert (HS : exists bs', Forall (B e') bs' /\ Forall2 (@incl nat) bs' bs).
       { clear Hl Hn. induction HB as [|b0 bs0 Hb0 _ IH]; [exists []; split; constructor|].
@@ -295,11 +295,30 @@ Section OSem.
 
   Lemma Bsub_qual : forall e e' q, Bsub e e' -> Bsub (OQual e q) (OQual e' q).
   Proof.
-    intros e e' [n|d|s t] Hs bb Hb.
+    intros e e' [n|m x|s t] Hs bb Hb.
     - apply B_repeat in Hb. destruct Hb as [bs [Hl [HB Hr]]]. apply B_repeat. exists bs.
       split; [exact Hl | split; [|exact Hr]]. eapply Forall_impl; [|exact HB]. exact Hs.
     - apply B_within in Hb. destruct Hb as [Hb Hq]. apply B_within. split; [apply Hs; exact Hb | exact Hq].
     - apply B_startstop in Hb. destruct Hb as [Hb Hq]. apply B_startstop. split; [apply Hs; exact Hb | exact Hq].
+  Qed.
+
+  (* comparator-equal qualifiers constrain a binding in the same way *)
+  Lemma qual_same_B : forall e q1 q2, qual_same q1 q2 -> forall bb, B (OQual e q1) bb -> B (OQual e q2) bb.
+  Proof.
+    intros e q1 q2 Hq bb Hb. destruct q1 as [n1|m1 x1|s1 t1], q2 as [n2|m2 x2|s2 t2]; simpl in Hq;
+      try discriminate Hq; try (inversion Hq; subst; exact Hb).
+    apply B_within in Hb. destruct Hb as [Hb Hok]. apply B_within. split; [exact Hb|].
+    simpl in *. intros i j Hi Hj. specialize (Hok i j Hi Hj).
+    assert (P1 : (0 < 10 ^ Z.of_N x1)%Z) by (apply Z.pow_pos_nonneg; lia).
+    assert (P2 : (0 < 10 ^ Z.of_N x2)%Z) by (apply Z.pow_pos_nonneg; lia).
+    set (d := (time_of obj O i - time_of obj O j)%Z) in *.
+    set (p1 := (10 ^ Z.of_N x1)%Z) in *. set (p2 := (10 ^ Z.of_N x2)%Z) in *.
+    (* d * p1 <= m1 * 10^6  and  m1 * p2 = m2 * p1  give  d * p2 <= m2 * 10^6 *)
+    apply (Zmult_le_reg_r _ _ p1); [lia|].
+    replace (m2 * 1000000 * p1)%Z with ((m1 * 1000000) * p2)%Z
+      by (replace (m1 * 1000000 * p2)%Z with ((m1 * p2) * 1000000)%Z by ring; rewrite Hq; ring).
+    replace (d * p2 * p1)%Z with ((d * p1) * p2)%Z by ring.
+    apply Z.mul_le_mono_nonneg_r; [lia | exact Hok].
   Qed.
 
   Lemma Bsub_mko : forall o l1 l2, Forall2 Bsub l1 l2 -> Bsub (mko o l1) (mko o l2).
@@ -329,8 +348,8 @@ Section OSem.
       revert H0. clear -E. induction E; intro HF; constructor; inversion HF; subst; auto.
     - simpl in E. apply lex_eq_Forall2 in E. apply Bsub_fby.
       revert H0. clear -E. induction E; intro HF; constructor; inversion HF; subst; auto.
-    - rewrite ocmp_qual in E. apply lex2_eq in E. destruct E as [Eq Ee]. apply qual_cmp_eq in Eq. subst q2.
-      apply Bsub_qual. apply IHa; exact Ee.
+    - rewrite ocmp_qual in E. apply lex2_eq in E. destruct E as [Eq Ee]. apply qual_cmp_eq in Eq.
+      intros bb Hb. apply (qual_same_B e2 q q2 Eq). apply (Bsub_qual a e2 q (IHa e2 Ee)). exact Hb.
   Qed.
 
   Lemma ocmp_Beq : forall a b, ocmp a b = Eq -> Beq a b.
